@@ -262,11 +262,20 @@ fn random_history(rng: &mut Rng, base: u64, probes: &mut Vec<u64>, restart_heavy
             5 | 6 | 7 => {
                 let n = 1 + rng.below(5) as usize;
                 let mut items = Vec::new();
+                if rng.chance(1, 3) {
+                    // what put_many sends: ONE stamp for all the (different) ids of the bulk
+                    let t = stamp(rng, &mut used);
+                    for (j, k) in keys.iter().take(n).enumerate() {
+                        items.push(format!("{:x}.{:x}.{:x}", k, t, payload + 0x100 * j as u64));
+                    }
+                } else {
                 for j in 0..n {
                     // duplicates of one id inside a bulk, in both stamp orders
                     let k = if j > 0 && rng.chance(1, 3) { keys[0] } else { *rng.pick(&keys) };
                     items.push(format!("{:x}.{:x}.{:x}", k, stamp(rng, &mut used), payload + 0x100 * j as u64));
                 }
+                }
+                let n = items.len();
                 let o = match rng.below(5) {
                     0 => "f".to_string(),
                     1 | 2 => format!("m{}", (0..n).map(|_| if rng.chance(1, 2) { '1' } else { '0' }).collect::<String>()),
@@ -277,10 +286,19 @@ fn random_history(rng: &mut Rng, base: u64, probes: &mut Vec<u64>, restart_heavy
             8 | 9 => {
                 let n = 1 + rng.below(4) as usize;
                 let mut items = Vec::new();
+                if rng.chance(1, 3) {
+                    // what del_many sends: one stamp for all its ids
+                    let t = stamp(rng, &mut used);
+                    for k in keys.iter().take(n) {
+                        items.push(format!("{:x}.{:x}", k, t));
+                    }
+                } else {
                 for j in 0..n {
                     let k = if j > 0 && rng.chance(1, 3) { keys[0] } else { *rng.pick(&keys) };
                     items.push(format!("{:x}.{:x}", k, stamp(rng, &mut used)));
                 }
+                }
+                let n = items.len();
                 let o = match rng.below(5) {
                     0 => "f".to_string(),
                     1 | 2 => format!("m{}", (0..n).map(|_| if rng.chance(1, 2) { '1' } else { '0' }).collect::<String>()),
